@@ -1,6 +1,8 @@
 package c06
 
 import (
+	"sync"
+	"sync/atomic"
 	"context"
 	"encoding/hex"
 	"encoding/json"
@@ -239,7 +241,7 @@ func run(h *History) (kit.Case, error) {
 		sb.WriteString("|" + o.coq())
 	}
 	return kit.Case{
-		Coq:        fmt.Sprintf("mkTrace %s %s %s", be, kit.List(ops), kit.List(outs)),
+		Coq:        fmt.Sprintf("CHist (mkTrace %s %s %s)", be, kit.List(ops), kit.List(outs)),
 		Key:        sb.String(),
 		Nontrivial: nontrivial(h),
 		Desc:       h,
@@ -321,4 +323,70 @@ func loadHistory(path string) (*History, error) {
 		return nil, err
 	}
 	return &h, nil
+}
+
+// runConc: n goroutines are released together, each doing one InsertIfNotExists (or, on a present
+// row, one CompareAndSwap from the same old value) on the same key of a real backend; per key the
+// number of callers that got ok=true is recorded. Conditional operations act atomically: exactly
+// one wins. (A test of the real backends next to the theorem about the one-transaction model; a
+// backend that checks and writes in two transactions loses it within a few keys.)
+func runConc(backend string, n, keys int, seed uint64) (kit.Case, error) {
+	clock := kit.NewClock()
+	st, cleanup, err := kit.NewBackend(backend, clock)
+	if err != nil {
+		return kit.Case{}, err
+	}
+	defer cleanup()
+	winners := make([]string, 0, 2*keys)
+	for k := 0; k < keys; k++ {
+		pk, cc := []byte("conc"), []byte(fmt.Sprintf("k%d-%d", seed, k))
+		for round := 0; round < 2; round++ { // 0: conditional insert on the absent row; 1: compare-and-swap on the present one
+			var cur []byte
+			if round == 1 {
+				if ok, err := st.Get(pk, cc, &cur); err != nil || !ok {
+					return kit.Case{}, fmt.Errorf("row written by the winner is not there (%v, %v)", ok, err)
+				}
+			}
+			var won atomic.Int32
+			var failed atomic.Int32
+			var wg sync.WaitGroup
+			start := make(chan struct{})
+			for g := 0; g < n; g++ {
+				wg.Add(1)
+				go func(g int) {
+					defer wg.Done()
+					<-start
+					var ok bool
+					var err error
+					if round == 0 {
+						ok, err = st.InsertIfNotExists(pk, cc, []byte{1, byte(g)}, 0)
+					} else {
+						ok, err = st.CompareAndSwap(pk, cc, cur, []byte{2, byte(g)}, 0)
+					}
+					if err != nil {
+						failed.Add(1)
+					} else if ok {
+						won.Add(1)
+					}
+				}(g)
+			}
+			close(start)
+			wg.Wait()
+			if failed.Load() > 0 {
+				return kit.Case{}, fmt.Errorf("conditional operation returned an error under concurrency")
+			}
+			winners = append(winners, fmt.Sprint(won.Load()))
+		}
+	}
+	be := "Mem"
+	if backend == "bbolt" {
+		be = "Bbolt"
+	}
+	return kit.Case{
+		Coq:        fmt.Sprintf("CConc %s %d %s", be, n, kit.List(winners)),
+		Key:        fmt.Sprintf("conc|%s|%d|%d|%d", backend, n, keys, seed),
+		Nontrivial: true,
+		Desc:       map[string]any{"kind": "concurrent-conditional-ops", "backend": backend, "goroutines": n, "keys": keys, "winners_per_key_and_round": winners},
+		Tags:       []string{backend, "conc"},
+	}, nil
 }
